@@ -44,6 +44,8 @@ fn main() {
                 "C02" => rnv::c02::main(&ctx, rnv::logmodel::Profile::Durability),
                 "C05" => rnv::c05::main(&ctx),
                 "C04" => rnv::c04::main(&ctx),
+                "C07" => rnv::c07::main(&ctx),
+                "C01" => rnv::c01::main(&ctx),
                 "C03" => rnv::c02::main(&ctx, rnv::logmodel::Profile::Truncation),
                 _ => {
                     eprintln!("unknown property {}", id);
@@ -51,6 +53,13 @@ fn main() {
                 }
             };
             std::process::exit(code);
+        }
+        "__node-phase" => {
+            if args.len() < 3 {
+                usage();
+            }
+            let code = rnv::node::node_main(&args[2]);
+            unsafe { libc::_exit(code) }
         }
         "__c04-record" => {
             if args.len() < 4 {
